@@ -178,6 +178,23 @@ def run(ctx):
     if len(ch) != 1 or "charset_adjust_handler" not in ch[0][0] or "element_content_handlers" not in ch[0][1]:
         r.violate("from_settings|meta-handler-first", f"the built-in <meta charset> handler is not registered before the user's element handlers ({ch}): a user handler that rewrites the charset/content attribute would change the encoding the rest of the document is decoded with", fs.loc())
 
+    # every text chunk carries the document encoding (it selects the encoder for the chunk and for what handlers attach to it)
+    ftx = mir.fn("TextDecoder::feed_text")
+    encs = []
+    for bi_, t_ in ftx.calls(r"FnMut::call_mut$|call_mut$"):
+        if len(t_["args"]) >= 2:
+            ag_ = None
+            a1 = t_["args"][1]
+            if a1.get("k") in ("copy", "move"):
+                for kind_, dbi_, x_ in ftx.defs_of(a1["p"]["local"]):
+                    if kind_ == "assign" and x_["rv"]["k"] == "agg" and x_["rv"].get("what") == "tuple":
+                        ag_ = x_["rv"]
+            if ag_ and len(ag_["ops"]) >= 3:
+                encs.append(ftx.deep(ag_["ops"][2]))
+    r.inst("feed_text|chunk-encoding", sample={"encoding_operands": [e_[:60] for e_ in encs]})
+    if len(encs) != 2 or any(("static " in e_) or ("self.encoding" not in e_) for e_ in encs):
+        r.violate("feed_text|chunk-encoding", f"TextDecoder::feed_text hands a text chunk to the handlers with encoding {encs} instead of the document encoding on both paths: content a handler attaches to such a chunk is written as raw UTF-8 into a legacy-encoded document (no transcoding, no numeric character references)", ftx.loc())
+
     # ------------------------------------------------------------------ R13.6 (see _r136_post below)
     r = ctx.rule("R13.6", "document bytes are taken as UTF-8 only when the document encoding is UTF-8: every str::from_utf8 / String::from_utf8* on non-test paths is dominated by a test `encoding == UTF_8`, or sits in a reviewed function whose input is not document bytes", "E-MIR dominance", floor=4)
     REVIEWED_UTF8 = {
